@@ -108,6 +108,13 @@ def gen_random_script(rng, prop, long=False):
                 since += 1
             out.append(st)
         steps = out
+    if faults and rng.random() < 0.3:
+        # "disk full": from some frame on every write on the motion sink fails for a while
+        a = rng.randint(0, max(0, len(steps) - 5))
+        for st in steps[a:a + rng.choice([3, MaxF + 3, 2 * MaxF + 5])]:
+            if st["a"] == "frame":
+                st["mW"] = False
+                st["mPre"] = rng.choice([0, 1])
     if faults:
         for st in steps:
             if st["a"] == "frame" and rng.random() < 0.12:
